@@ -1065,13 +1065,23 @@ class Rewriter:
             idx_outside = any(not any(a < u.start() < b for a, b in fspans) for u in re.finditer(r'(?<![A-Za-z0-9_.])' + re.escape(idx) + r'(?![A-Za-z0-9_])', bm))
             if skip is not None or idx_outside or force_counter:
                 # the index is needed: counter loop  { let mut i = S; while i < E.len() { let x = &E[i]; BODY; i += 1; } }
-                if re.search(r'(?<![A-Za-z0-9_])continue(?![A-Za-z0-9_])', bm):
-                    raise ExtractError('enumerate loop with `continue` cannot become a counter loop')
+                has_continue = re.search(r'(?<![A-Za-z0-9_])continue(?![A-Za-z0-9_])', bm)
+                if has_continue and re.search(r'(?<![A-Za-z0-9_.])(for|while|loop)(?![A-Za-z0-9_])', bm[1:]):
+                    raise ExtractError('enumerate loop with `continue` and an inner loop cannot become a counter loop')
                 s0 = skip if skip is not None else '0'
                 seq = r2.strip()
                 if seq.startswith('&'):
                     seq = seq[1:].strip()
                 inner = body[1:-1]
+                if has_continue:
+                    # `continue` of this loop must still advance the counter
+                    im = mask(inner)
+                    out, last = '', 0
+                    for cm_ in re.finditer(r'(?<![A-Za-z0-9_])continue\s*;', im):
+                        out += inner[last:cm_.start()] + '{ %s += 1; continue; }' % idx
+                        last = cm_.end()
+                    inner = out + inner[last:]
+                    self.note('continue in a counter loop -> { i += 1; continue; }', 1)
                 rep = ('{ let mut %s: usize = %s; while %s < %s.len() /*@auto invariant %s >= %s; decreases %s.len() - %s*/ { let %s = &%s[%s]; %s\n %s += 1; } }'
                        % (idx, s0, idx, seq, idx, s0, seq, idx, var, seq, idx, inner, idx))
                 code = code[:mm.start()] + rep + code[cb + 1:]
